@@ -490,10 +490,11 @@ def baseIsSuperTypeOf (self other : Constr) : Bool :=
   !self.truthy || pyEq other self || decide (self ∈ valueMap other)
 
 mutual
-/-- `ConstraintsIntersection._isImposedBy(constraint, other)` (fix 8bf629a): `constraint == other`,
-    or `other` is an intersection and one of its operands imposes it.  Unions are not entered. -/
+/-- `ConstraintsIntersection._isImposedBy(constraint, other)` (fixes 8bf629a, 0512f2c): equal hash and
+    `==` (the membership test of the value map: structural equality, the class counts), or `other`
+    is an intersection and one of its operands imposes it.  Unions are not entered. -/
 def imposedBy (c : Constr) : Constr → Bool
-  | .mk k ops => pyEq c (.mk k ops) || (k == .intersection && imposedByOps c ops)
+  | .mk k ops => decide (c = .mk k ops) || (k == .intersection && imposedByOps c ops)
 def imposedByOps (c : Constr) : Ops → Bool
   | .nil => false
   | .con d rest => imposedBy c d || imposedByOps c rest
@@ -502,7 +503,7 @@ def imposedByOps (c : Constr) : Ops → Bool
   | .entry _ _ _ rest => imposedByOps c rest
 end
 
-/-- the loop of `ConstraintsIntersection.isSuperTypeOf` (fixes 9506346, 8bf629a): every truthy
+/-- the loop of `ConstraintsIntersection.isSuperTypeOf` (fixes 9506346, 8bf629a, 0512f2c): every truthy
     operand is imposed by the other constraint -/
 def imposedAll : Ops → Constr → Bool
   | .nil, _ => true
@@ -537,12 +538,12 @@ def deriveChain (parent : Constr) : List Constr → Constr
   | [] => parent
   | e :: es => deriveChain (derive parent e) es
 
-/-- `ConstructedAsn1Type._moveSizeSpec` (after fixes 9bc6b88, aaa101a): a legacy `sizeSpec` is added to the
+/-- `ConstructedAsn1Type._moveSizeSpec` (after fixes 9bc6b88, aaa101a, 4027db3): a legacy `sizeSpec` is added to the
     subtypeSpec unless the subtypeSpec already imposes it (cloning passes the moved one back in) -/
 def moveSizeSpec (subtypeSpec sizeSpec : Constr) : Constr :=
   if !sizeSpec.truthy then subtypeSpec
   else if !subtypeSpec.truthy then derive subtypeSpec sizeSpec
-  else if !isSuperTypeOf (.mk .intersection (.con sizeSpec .nil)) subtypeSpec then
+  else if !imposedBy sizeSpec subtypeSpec then
     .mk .intersection (.con subtypeSpec (.con sizeSpec .nil))
   else subtypeSpec
 
